@@ -49,24 +49,103 @@ fn verdict(still_stored: bool) {
 '''
 
 
+SCHEDULES = ("a", "b", "c", "d", "e1", "e2", "e3", "e4", "e5", "f")
+SCHEDULE_DOC = """
+// The store is run once per schedule, each time in a fresh arena, followed by finish_cycle() x2:
+//   a   collector Sleeping
+//   b   after finish_marking() (every object Black, phase Marked), inside `mutate`
+//   c   same, inside `mutate_root` (the root is flagged for re-tracing while the store happens)
+//   d   after finish_marking(), inside `mutate` immediately after a `mutate_root` that only touched a root field
+//   eK  after K single-object mark steps (set_pacing + adjust_debt + mark_debt): the parent is traced
+//       first (Black) while the filler objects are still gray
+//   f   Sweeping (start_sweeping), the child is born during the sweep
+// C01 verdict by drop flags only (nothing freed is dereferenced): the child stored in a reachable
+// object must be alive, the orphan stored nowhere must be gone.
+"""
+
+
 def _black_parent(root_fields, init, body, check, extra_items=""):
-    """Black-parent / white-child scenario: everything is marked (phase Marked, all black), the
-    callback stores a fresh (white) child, the cycle is finished; the child must survive."""
-    return PRELUDE + extra_items + f'''
+    """Store scenario under the schedule matrix (SCHEDULE_DOC): black parent / white child and the
+    other collector states in which a write barrier matters."""
+    return PRELUDE + extra_items + SCHEDULE_DOC + f'''
+thread_local! {{ static ORPHANS: Cell<u32> = Cell::new(0); }}
+/// Allocated in the same callback as the child and stored nowhere.
+struct Orphan;
+impl Drop for Orphan {{ fn drop(&mut self) {{ ORPHANS.with(|d| d.set(d.get() + 1)); }} }}
+
 #[derive(Collect)]
 #[collect(no_drop)]
-struct Root<'gc> {{ {root_fields} }}
+struct Root<'gc> {{ filler: Vec<Gc<'gc, Slot<'gc>>>, {root_fields}, tick: u32 }}
 
-fn main() {{
-    let mut arena = Arena::<Rootable![Root<'_>]>::new(|mc| Root {{ {init} }});
-    arena.finish_marking(); // every object black, phase Marked
-    arena.mutate(|mc, root| {{
-        let child: Child<'_> = Gc::new_static(mc, Token(7)); // white
+/// The store under test.
+fn store<'gc>(mc: &gc_arena::Mutation<'gc>, root: &'gc Root<'gc>, child: Child<'gc>) {{
 {body}
-    }});
+}}
+
+fn run_schedule(s: &str) -> (bool, u32, u32) {{
+    DROPS.with(|d| d.set(0));
+    ORPHANS.with(|d| d.set(0));
+    let mut arena = Arena::<Rootable![Root<'_>]>::new(|mc| Root {{
+        filler: (0..6).map(|_| Gc::new(mc, RefLock::new(None))).collect(), {init}, tick: 0 }});
+    match s {{
+        "a" => {{}}
+        "b" | "c" | "d" => {{ let _ = arena.finish_marking(); }}
+        "f" => {{ arena.finish_marking().expect("marked").start_sweeping(); }}
+        e => {{
+            // K single-object mark steps: one unit of debt per step, one unit of credit per traced object
+            let k: usize = e[1..].parse().unwrap();
+            arena.metrics().set_pacing(gc_arena::metrics::Pacing {{ sleep_factor: 0.5, min_sleep: 0, mark_factor: 0.0, trace_factor: 1.0,
+                                                                   keep_factor: 0.0, drop_factor: 0.0, free_factor: 0.0 }});
+            let n = arena.metrics().total_gc_count() as f64;
+            arena.metrics().adjust_debt(-n);
+            for _ in 0..k {{ arena.metrics().adjust_debt(1.0); let _ = arena.mark_debt(); }}
+        }}
+    }}
+    if s == "d" {{ arena.mutate_root(|_, root| {{ root.tick += 1; }}); }}
+    if s == "c" {{
+        arena.mutate_root(|mc, root| {{
+            let root: &Root<'_> = root;
+            let child: Child<'_> = Gc::new_static(mc, Token(7));
+            let _orphan = Gc::new_static(mc, Orphan);
+            store(mc, root, child);
+        }});
+    }} else {{
+        arena.mutate(|mc, root| {{
+            let child: Child<'_> = Gc::new_static(mc, Token(7));
+            let _orphan = Gc::new_static(mc, Orphan);
+            store(mc, root, child);
+        }});
+    }}
+    arena.finish_cycle();
+    if drops() > 0 {{
+        // the child was destructed: if it is still stored, the collector must not look at the arena
+        // again (it would follow a dangling pointer) — stop here and leak the arena
+        let still_stored = arena.mutate(|_, root| {{ {check} }});
+        if still_stored {{
+            std::mem::forget(arena);
+            return (true, drops(), 1);
+        }}
+    }}
     arena.finish_cycle();
     let still_stored = arena.mutate(|_, root| {{ {check} }});
-    verdict(still_stored);
+    (still_stored, drops(), ORPHANS.with(|d| d.get()))
+}}
+
+fn main() {{
+    let mut bad = vec![];
+    let mut leaked = vec![];
+    for s in [{", ".join('"' + x + '"' for x in SCHEDULES)}] {{
+        let (stored, child_drops, orphan_drops) = run_schedule(s);
+        if stored && child_drops > 0 {{ bad.push(s); }}
+        if orphan_drops != 1 {{ leaked.push(s); }}
+    }}
+    if !bad.is_empty() {{
+        println!("RESULT unsafe: schedule(s) {{bad:?}}: the child's destructor ran while the child is still stored in a reachable object (b/c/d: store after finish_marking() inside mutate / inside mutate_root / inside mutate right after a mutate_root that touched only a root field; a: asleep; eK: after K partial mark steps; f: while sweeping)");
+    }} else if !leaked.is_empty() {{
+        println!("RESULT unsafe: schedule(s) {{leaked:?}}: the orphan stored nowhere was not destructed exactly once after finish_cycle() x2");
+    }} else {{
+        println!("RESULT safe: all {len(SCHEDULES)} schedules keep the stored child alive and free the orphan");
+    }}
 }}
 '''
 
